@@ -20,3 +20,14 @@ Lemma tie_class_constants :
   Gen.C01.c01_os2_WeightNormal = 400%N /\ Gen.C01.c01_os2_WidthNormal = 5%N /\
   assoc_n Gen.C01.c01_os2_WeightBold weight_names = Some s_Bold.
 Proof. repeat split; reflexivity. Qed.
+
+Lemma tie_all :
+  weight_names = Gen.C01.c01_os2_weight_names /\
+  width_names = Gen.C01.c01_os2_width_names /\
+  zero1904 = Gen.C01.c01_head_zeroTime /\
+  Gen.C01.c01_os2_WeightNormal = 400%N /\ Gen.C01.c01_os2_WidthNormal = 5%N /\
+  assoc_n Gen.C01.c01_os2_WeightBold weight_names = Some s_Bold.
+Proof.
+  split; [exact tie_weight_names|]. split; [exact tie_width_names|]. split; [exact tie_zero_time|].
+  exact tie_class_constants.
+Qed.
